@@ -153,7 +153,7 @@ Definition retbl (L : list link) (d : dataset) : dataset :=
 Lemma retbl_fields : forall L d,
   d_id (retbl L d) = d_id d /\ d_member (retbl L d) = d_member d /\ d_hub (retbl L d) = d_hub d /\
   d_own (retbl L d) = d_own d /\ d_coord (retbl L d) = d_coord d /\ d_world (retbl L d) = d_world d /\
-  d_int (retbl L d) = d_int d /\ d_der (retbl L d) = d_der d.
+  d_int (retbl L d) = d_int d /\ d_der (retbl L d) = d_der d /\ d_dinv (retbl L d) = d_dinv d.
 Proof. intros L d. unfold retbl. destruct (d_member d) eqn:E; simpl; rewrite ?E; repeat split; auto. Qed.
 
 Lemma retbl_comps : forall L d, comps (retbl L d) = comps d.
@@ -191,9 +191,9 @@ Qed.
 
 Lemma ds_wf_fields : forall d d',
   d_id d' = d_id d -> d_member d' = d_member d -> d_hub d' = d_hub d -> d_own d' = d_own d ->
-  d_coord d' = d_coord d -> d_int d' = d_int d -> d_der d' = d_der d -> ds_wf d -> ds_wf d'.
+  d_coord d' = d_coord d -> d_int d' = d_int d -> d_der d' = d_der d -> d_dinv d' = d_dinv d -> ds_wf d -> ds_wf d'.
 Proof.
-  intros d d' E1 E2 E3 E4 E5 E6 E7 H. unfold ds_wf, comps, der_cids in *. rewrite E1, E2, E3, E4, E5, E6, E7. exact H.
+  intros d d' E1 E2 E3 E4 E5 E6 E7 E8 H. unfold ds_wf, comps, der_cids in *. rewrite E1, E2, E3, E4, E5, E6, E7, E8. exact H.
 Qed.
 
 Lemma recompute_wf : forall s, wf s -> wf (recompute s).
@@ -203,7 +203,7 @@ Proof.
     replace (map (fun x => d_id (retbl (all_links s) x)) (s_data s)) with (map d_id (s_data s)); auto.
     apply map_ext. intros x. symmetry. apply (retbl_fields (all_links s) x).
   - intros d Hd. rewrite recompute_data in Hd. apply in_map_iff in Hd. destruct Hd as [x [Hx Hin]]. subst d.
-    destruct (retbl_fields (all_links s) x) as (E1 & E2 & E3 & E4 & E5 & _ & E7 & E8).
+    destruct (retbl_fields (all_links s) x) as (E1 & E2 & E3 & E4 & E5 & _ & E7 & E8 & E9).
     apply (ds_wf_fields x); auto.
   - intros e He p c Hp Hc. apply live_recompute. apply (Hext e He p c Hp Hc).
   - rewrite recompute_err. exact Herr.
@@ -318,14 +318,19 @@ Lemma ds_link_shape : forall x l, ds_wf x -> In l (ds_links x) ->
   l_from l <> [] /\ (forall c, In c (link_cids l) -> In c (comps x)) /\
   (forall c, In c (link_cids l) -> fst c = d_id x).
 Proof.
-  intros x l (Hown & Hco & Hint & Hder & _) Hl.
+  intros x l (Hown & Hco & Hint & (Hder & Hdinv) & _) Hl.
   assert (H : l_from l <> [] /\ forall c, In c (link_cids l) -> In c (comps x)).
-  { unfold ds_links in Hl. apply in_app_iff in Hl. destruct Hl as [Hl|Hl].
+  { unfold ds_links in Hl. apply in_app_iff in Hl. destruct Hl as [Hl|Hl]; [|apply in_app_iff in Hl; destruct Hl as [Hl|Hl]].
     - destruct (Hint l Hl) as (Hnn & Hfr & Hto). split; auto.
       intros c [Hc|Hc]; unfold comps; apply in_app_iff; left; apply Hco; subst; auto.
     - destruct (Hder l Hl) as (Hnn & Hfr). split; auto.
       intros c [Hc|Hc]; unfold comps; apply in_app_iff.
       + right. subst c. unfold der_cids. apply in_map. exact Hl.
-      + left. apply Hfr. exact Hc. }
+      + left. apply Hfr. exact Hc.
+    - destruct (Hdinv l Hl) as (l' & Hl' & Ef' & Ef). destruct (Hder l' Hl') as (Hnn' & Hfr'). split.
+      + rewrite Ef. discriminate.
+      + intros c [Hc|Hc]; unfold comps; apply in_app_iff.
+        * left. subst c. apply Hfr'. rewrite Ef'. simpl. auto.
+        * right. rewrite Ef in Hc. destruct Hc as [Hc|[]]. subst c. unfold der_cids. apply in_map. exact Hl'. }
   destruct H as [H1 H2]. repeat split; auto.
 Qed.
